@@ -539,7 +539,7 @@ def s_history():
     setup = st.fixed_dictionaries({
         "net": st.sampled_from(NETCODES), "seed": seeds(), "base": st.lists(path_elems(), max_size=2),
         "pool": st.lists(indices(), min_size=1, max_size=3)})
-    return st.fixed_dictionaries({"setup": setup, "ops": st.lists(op, min_size=0, max_size=24)})
+    return st.fixed_dictionaries({"setup": setup, "ops": st.lists(op, min_size=3, max_size=24)})
 
 
 # ---------------------------------------------------------------------------------------------------------------
